@@ -20,6 +20,7 @@ import (
 	"os"
 	"runtime"
 	"runtime/debug"
+	"runtime/pprof"
 	"sort"
 	"strings"
 	"sync"
@@ -130,12 +131,24 @@ type refInfo struct {
 
 type refCache struct {
 	keys [][]byte
-	m    sync.Map // content -> *refInfo
+	tab  []atomic.Pointer[refInfo] // indexed by the content read as a base-6 number
+}
+
+func newRefCache(keys [][]byte) *refCache {
+	n := 1
+	for range keys {
+		n *= len(values)
+	}
+	return &refCache{keys: keys, tab: make([]atomic.Pointer[refInfo], n)}
 }
 
 func (rc *refCache) get(ct content) *refInfo {
-	if v, ok := rc.m.Load(ct); ok {
-		return v.(*refInfo)
+	idx := 0
+	for k := len(rc.keys) - 1; k >= 0; k-- {
+		idx = idx*len(values) + int(ct[k])
+	}
+	if ri := rc.tab[idx].Load(); ri != nil {
+		return ri
 	}
 	m := map[string][]byte{}
 	for k, v := range ct {
@@ -154,7 +167,7 @@ func (rc *refCache) get(ct content) *refInfo {
 			ri.embedded = true
 		}
 	}
-	rc.m.Store(ct, ri)
+	rc.tab[idx].Store(ri)
 	return ri
 }
 
@@ -213,6 +226,7 @@ type inst struct {
 	mask     uint8
 	viols    []viol
 	dead     bool // the instance could not be (re)opened; no further operation possible
+	msgs     bool // format violation messages (confirmation / replay runs)
 }
 
 func newInst(a *alphabet, rc *refCache) *inst {
@@ -227,7 +241,12 @@ func newInst(a *alphabet, rc *refCache) *inst {
 	return in
 }
 
-func (in *inst) fail(sig, part, msg string) {
+// fail records a deviation; the message is only formatted on confirmation runs.
+func (in *inst) fail(sig, part, format string, args ...interface{}) {
+	msg := ""
+	if in.msgs {
+		msg = fmt.Sprintf(format, args...)
+	}
 	in.viols = append(in.viols, viol{sig, part, msg})
 }
 
@@ -253,38 +272,38 @@ func (in *inst) step(o op) {
 		switch o.Kind {
 		case opUpdate:
 			if err := in.tr.TryUpdate(cp(in.a.keys[o.K]), cp(values[o.V])); err != nil {
-				in.fail("C02:error:update", "op", "TryUpdate: "+err.Error())
+				in.fail("C02:error:update", "op", "TryUpdate: %v", err)
 			}
 			in.setModel(o.K, uint8(o.V))
 		case opDelete:
 			if err := in.tr.TryDelete(cp(in.a.keys[o.K])); err != nil {
-				in.fail("C02:error:delete", "op", "TryDelete: "+err.Error())
+				in.fail("C02:error:delete", "op", "TryDelete: %v", err)
 			}
 			in.setModel(o.K, 0)
 		case opGet:
 			got, err := in.tr.TryGet(cp(in.a.keys[o.K]))
 			if err != nil {
-				in.fail("C02:error:get", "op", "TryGet: "+err.Error())
+				in.fail("C02:error:get", "op", "TryGet: %v", err)
 			} else if !bytes.Equal(got, values[in.ct[o.K]]) {
-				in.fail("C02:get-mismatch:op-get", "op", fmt.Sprintf("TryGet(%x) = %x, model %x", in.a.keys[o.K], got, values[in.ct[o.K]]))
+				in.fail("C02:get-mismatch:op-get", "op", "TryGet(%x) = %x, model %x", in.a.keys[o.K], got, values[in.ct[o.K]])
 			}
 		case opHash:
 			h := in.tr.Hash()
 			if want := in.rc.get(in.ct).root; !bytes.Equal(h[:], want) {
-				in.fail("C02:root-mismatch:op-hash", "op", fmt.Sprintf("Hash() = %x, reference %x", h[:], want))
+				in.fail("C02:root-mismatch:op-hash", "op", "Hash() = %x, reference %x", h[:], want)
 			}
 		case opCommitMem, opCommitDisk:
 			root, err := in.tr.Commit(nil)
 			if err != nil {
-				in.fail("C02:error:"+name, "op", "Commit: "+err.Error())
+				in.fail("C02:error:"+name, "op", "Commit: %v", err)
 				return
 			}
 			if want := in.rc.get(in.ct).root; !bytes.Equal(root[:], want) {
-				in.fail("C02:root-mismatch:op-commit", "op", fmt.Sprintf("Commit() = %x, reference %x", root[:], want))
+				in.fail("C02:root-mismatch:op-commit", "op", "Commit() = %x, reference %x", root[:], want)
 			}
 			if o.Kind == opCommitDisk {
 				if err := in.ndb.Commit(root, false); err != nil {
-					in.fail("C02:error:"+name, "op", "NodeDatabase.Commit: "+err.Error())
+					in.fail("C02:error:"+name, "op", "NodeDatabase.Commit: %v", err)
 					return
 				}
 				in.diskRoot, in.diskCt = root, in.ct
@@ -294,7 +313,7 @@ func (in *inst) step(o op) {
 			tr, err := trie.NewTrie(in.diskRoot, in.ndb)
 			in.ct = in.diskCt
 			if err != nil {
-				in.fail("C02:error:reopen", "op", fmt.Sprintf("NewTrie(%x): %v", in.diskRoot[:], err))
+				in.fail("C02:error:reopen", "op", "NewTrie(%x): %v", in.diskRoot[:], err)
 				in.dead = true
 				return
 			}
@@ -306,7 +325,7 @@ func (in *inst) step(o op) {
 		}
 	})
 	if p {
-		in.fail("C02:panic:"+site, "op", fmt.Sprintf("panic in %s: %v", name, pv))
+		in.fail("C02:panic:"+site, "op", "panic in %s: %v", name, pv)
 		in.dead = true
 	}
 }
@@ -323,7 +342,7 @@ func (in *inst) checkIter(part string) {
 		}
 	}
 	if it.Err != nil {
-		in.fail("C02:iter-error", part, "iterator error: "+it.Err.Error())
+		in.fail("C02:iter-error", part, "iterator error: %v", it.Err)
 		return
 	}
 	var want []kv
@@ -341,6 +360,9 @@ func (in *inst) checkIter(part string) {
 		return
 	}
 	show := func(l []kv) string {
+		if !in.msgs {
+			return ""
+		}
 		var s []string
 		for _, e := range l {
 			v := hex.EncodeToString(e.v)
@@ -359,7 +381,7 @@ func (in *inst) checkIter(part string) {
 		perm = bytes.Equal(sorted[i].k, want[i].k) && bytes.Equal(sorted[i].v, want[i].v)
 	}
 	if !perm {
-		in.fail("C02:iter-content", part, fmt.Sprintf("iterator yields %s, live pairs %s", show(got), show(want)))
+		in.fail("C02:iter-content", part, "iterator yields %s, live pairs %s", show(got), show(want))
 		return
 	}
 	// classify the first descent
@@ -372,7 +394,7 @@ func (in *inst) checkIter(part string) {
 			break
 		}
 	}
-	in.fail(sig, part, fmt.Sprintf("iterator order %s, ascending order %s", show(got), show(want)))
+	in.fail(sig, part, "iterator order %s, ascending order %s", show(got), show(want))
 }
 
 func shortKey(k []byte) string {
@@ -393,25 +415,27 @@ func (in *inst) observe(last opKind) {
 	after := "after-" + kindName[last]
 	p, pv, site := fw.Try(func() {
 		h := in.tr.Hash()
+		firstOK := true
 		if want := in.rc.get(in.ct).root; !bytes.Equal(h[:], want) {
-			in.fail("C02:root-mismatch:"+after, "observe", fmt.Sprintf("Hash() = %x, reference %x", h[:], want))
+			firstOK = false
+			in.fail("C02:root-mismatch:"+after, "observe", "Hash() = %x, reference %x", h[:], want)
 		}
 		for k := range in.a.keys {
 			got, err := in.tr.TryGet(cp(in.a.keys[k]))
 			if err != nil {
-				in.fail("C02:error:get:"+after, "observe", fmt.Sprintf("TryGet(%s): %v", shortKey(in.a.keys[k]), err))
+				in.fail("C02:error:get:"+after, "observe", "TryGet(%s): %v", shortKey(in.a.keys[k]), err)
 			} else if !bytes.Equal(got, values[in.ct[k]]) {
-				in.fail("C02:get-mismatch:"+after, "observe", fmt.Sprintf("TryGet(%s) = %x, model %x", shortKey(in.a.keys[k]), got, values[in.ct[k]]))
+				in.fail("C02:get-mismatch:"+after, "observe", "TryGet(%s) = %x, model %x", shortKey(in.a.keys[k]), got, values[in.ct[k]])
 			}
 		}
 		in.checkIter("observe")
 		h = in.tr.Hash()
-		if want := in.rc.get(in.ct).root; !bytes.Equal(h[:], want) {
-			in.fail("C02:root-mismatch:after-observers", "observe", fmt.Sprintf("second Hash() = %x, reference %x", h[:], want))
+		if want := in.rc.get(in.ct).root; firstOK && !bytes.Equal(h[:], want) {
+			in.fail("C02:root-mismatch:after-observers", "observe", "second Hash() = %x, reference %x", h[:], want)
 		}
 	})
 	if p {
-		in.fail("C02:panic:"+site, "observe", fmt.Sprintf("panic in observers %s: %v", after, pv))
+		in.fail("C02:panic:"+site, "observe", "panic in observers %s: %v", after, pv)
 	}
 }
 
@@ -432,11 +456,11 @@ func (in *inst) differential() {
 		}
 		a, b := fresh.tr.Hash(), in.tr.Hash()
 		if a != b {
-			in.fail("C02:reopen-vs-fresh", "differential", fmt.Sprintf("reopened trie hashes to %x, trie built from empty with the same content to %x", b[:], a[:]))
+			in.fail("C02:reopen-vs-fresh", "differential", "reopened trie hashes to %x, trie built from empty with the same content to %x", b[:], a[:])
 		}
 	})
 	if p {
-		in.fail("C02:panic:"+site, "differential", fmt.Sprintf("panic: %v", pv))
+		in.fail("C02:panic:"+site, "differential", "panic: %v", pv)
 	}
 }
 
@@ -495,6 +519,7 @@ type result struct {
 // history of its own).
 func execute(a *alphabet, rc *refCache, hist []byte, wantDump bool) result {
 	in := newInst(a, rc)
+	in.msgs = wantDump
 	var last op
 	for i, oi := range hist {
 		last = a.ops[oi]
@@ -570,8 +595,9 @@ func histString(a *alphabet, hist []byte) string {
 const nShards = 256
 
 type stateRec struct {
-	hist []byte
-	mask uint8
+	hist    []byte
+	mask    uint8
+	tainted bool // an oracle other than iteration order failed here: counted, not expanded
 }
 
 type shardedSet struct {
@@ -610,11 +636,11 @@ func newNext() *shardedNext {
 
 // put keeps the lexicographically smallest history per key, so that the
 // representative of a state does not depend on goroutine timing.
-func (s *shardedNext) put(k [16]byte, hist []byte, mask uint8) {
+func (s *shardedNext) put(k [16]byte, hist []byte, mask uint8, tainted bool) {
 	i := k[0]
 	s.mu[i].Lock()
 	if old, ok := s.m[i][k]; !ok || bytes.Compare(hist, old.hist) < 0 {
-		s.m[i][k] = &stateRec{hist: append([]byte(nil), hist...), mask: mask}
+		s.m[i][k] = &stateRec{hist: append([]byte(nil), hist...), mask: mask, tainted: tainted}
 	}
 	s.mu[i].Unlock()
 }
@@ -622,6 +648,88 @@ func (s *shardedNext) put(k [16]byte, hist []byte, mask uint8) {
 type foundViol struct {
 	hist []byte
 	v    viol
+}
+
+// violRec keeps, per signature, the (up to) three lexicographically smallest
+// violating histories of the shallowest depth at which the signature occurs, so
+// that what is reported is minimal and independent of goroutine timing.  A
+// candidate is re-executed (same input) and recorded only if the observation repeats.
+type violRec struct {
+	mu   sync.Mutex
+	sigs map[string]*sigRec
+	n    map[string]int64
+}
+
+type sigRec struct {
+	depth int
+	top   []foundViol
+}
+
+const keepPerSig = 3
+
+func (vr *violRec) consider(a *alphabet, rc *refCache, depth int, hist []byte, vs []viol) {
+	var need []viol
+	vr.mu.Lock()
+	for _, v := range vs {
+		vr.n[v.Sig]++
+		rec := vr.sigs[v.Sig]
+		if rec != nil && (rec.depth < depth || (len(rec.top) >= keepPerSig && bytes.Compare(hist, rec.top[len(rec.top)-1].hist) > 0)) {
+			continue
+		}
+		need = append(need, v)
+	}
+	vr.mu.Unlock()
+	if len(need) == 0 {
+		return
+	}
+	r2 := execute(a, rc, hist, true) // confirmation run, with messages
+	vr.mu.Lock()
+	defer vr.mu.Unlock()
+	for _, v := range need {
+		var conf *viol
+		for i := range r2.viols {
+			if r2.viols[i].Sig == v.Sig && r2.viols[i].Part == v.Part {
+				conf = &r2.viols[i]
+				break
+			}
+		}
+		fv := foundViol{hist: append([]byte(nil), hist...)}
+		sig := v.Sig
+		if conf != nil {
+			fv.v = *conf
+		} else {
+			sig = "C02:nondeterministic"
+			fv.v = viol{sig, v.Part, "observation not reproduced on re-run of the same history: " + v.Sig}
+		}
+		rec := vr.sigs[sig]
+		if rec == nil {
+			rec = &sigRec{depth: depth}
+			vr.sigs[sig] = rec
+		}
+		if rec.depth < depth {
+			continue
+		}
+		rec.top = append(rec.top, fv)
+		sort.Slice(rec.top, func(i, j int) bool { return bytes.Compare(rec.top[i].hist, rec.top[j].hist) < 0 })
+		if len(rec.top) > keepPerSig {
+			rec.top = rec.top[:keepPerSig]
+		}
+	}
+}
+
+func (vr *violRec) report(c *fw.Ctx, a *alphabet) {
+	var sigs []string
+	for s := range vr.sigs {
+		sigs = append(sigs, s)
+	}
+	sort.Strings(sigs)
+	for _, s := range sigs {
+		c.Outcome("violation:" + s)
+		c.Count("violations["+s+"]", vr.n[s])
+		for _, f := range vr.sigs[s].top {
+			c.Violation(f.v.Sig, f.v.Part, fmt.Sprintf("after history [%s]: %s", histString(a, f.hist), f.v.Msg), mkCase(a, f.hist))
+		}
+	}
 }
 
 func tierSetup(thorough bool) (*alphabet, int) {
@@ -656,9 +764,15 @@ func selfTest() {
 
 func run(c *fw.Ctx) {
 	selfTest()
+	if f := os.Getenv("C02_PPROF"); f != "" { // developer aid only
+		if w, err := os.Create(f); err == nil {
+			pprof.StartCPUProfile(w)
+			defer pprof.StopCPUProfile()
+		}
+	}
 	debug.SetGCPercent(400)
 	a, depth := tierSetup(c.Thorough())
-	rc := &refCache{keys: a.keys}
+	rc := newRefCache(a.keys)
 	ngo := runtime.NumCPU()
 	if c.NShards > 1 {
 		ngo = (ngo + c.NShards - 1) / c.NShards
@@ -675,6 +789,7 @@ func run(c *fw.Ctx) {
 	frontier := []*stateRec{{hist: nil}}
 	var sampleN int32
 	completed := 0
+	vr := &violRec{sigs: map[string]*sigRec{}, n: map[string]int64{}}
 
 	for d := 1; d <= depth && len(frontier) > 0; d++ {
 		next := newNext()
@@ -685,8 +800,6 @@ func run(c *fw.Ctx) {
 		}
 		var idx int64 = -1
 		var wg sync.WaitGroup
-		var vmu sync.Mutex
-		var found []foundViol
 		var expired int32
 		var nTrans, nNontriv, nNewLast, nViolCases int64
 		for g := 0; g < ngo; g++ {
@@ -719,24 +832,15 @@ func run(c *fw.Ctx) {
 						if r.ct.live() >= 2 && mask != 0 {
 							atomic.AddInt64(&nNontriv, 1)
 						}
+						tainted := false
 						if len(r.viols) > 0 {
-							// re-run the same input; only a reproducible observation is recorded
-							r2 := execute(a, rc, hist, false)
 							atomic.AddInt64(&nViolCases, 1)
-							vmu.Lock()
-							if len(found) < 20000 {
-								for _, v := range r.viols {
-									ok := false
-									for _, w := range r2.viols {
-										ok = ok || w == v
-									}
-									if !ok {
-										v = viol{"C02:nondeterministic", v.Part, "not reproduced on re-run: " + v.Sig + ": " + v.Msg}
-									}
-									found = append(found, foundViol{append([]byte(nil), hist...), v})
-								}
+							vr.consider(a, rc, d, hist, r.viols)
+							for _, v := range r.viols {
+								// a wrong iteration *order* is a read-only deviation; everything else means
+								// implementation and model have diverged, successors would only repeat it
+								tainted = tainted || !strings.HasPrefix(v.Sig, "C02:iter-order")
 							}
-							vmu.Unlock()
 						}
 						if visited.has(r.key) {
 							continue
@@ -750,7 +854,7 @@ func run(c *fw.Ctx) {
 							}
 							lastSeen.mu[i0].Unlock()
 						} else {
-							next.put(r.key, hist, mask)
+							next.put(r.key, hist, mask, tainted)
 						}
 						if r.ct.live() >= 2 && mask != 0 && atomic.AddInt32(&sampleN, 1) <= 2 {
 							rr := execute(a, rc, hist, true)
@@ -767,17 +871,6 @@ func run(c *fw.Ctx) {
 		c.NontrivialN(nNontriv)
 		c.Count("violating_histories", nViolCases)
 
-		// deterministic reporting order: by history
-		sort.Slice(found, func(i, j int) bool {
-			if c := bytes.Compare(found[i].hist, found[j].hist); c != 0 {
-				return c < 0
-			}
-			return found[i].v.Sig < found[j].v.Sig
-		})
-		for _, f := range found {
-			c.Outcome("violation:" + f.v.Sig)
-			c.Violation(f.v.Sig, f.v.Part, fmt.Sprintf("after history [%s]: %s", histString(a, f.hist), f.v.Msg), mkCase(a, f.hist))
-		}
 		if expired != 0 {
 			c.Cap(fmt.Sprintf("time cap during depth %d of %d (depth %d complete)", d, depth, completed))
 			break
@@ -788,25 +881,33 @@ func run(c *fw.Ctx) {
 			break
 		}
 		var nf []*stateRec
+		var nstates, ntainted int64
 		for i := range next.m {
 			for k, s := range next.m[i] {
 				visited.add(k)
+				nstates++
+				if s.tainted {
+					ntainted++
+					continue
+				}
 				nf = append(nf, s)
 			}
 		}
 		sort.Slice(nf, func(i, j int) bool { return bytes.Compare(nf[i].hist, nf[j].hist) < 0 })
-		c.State(int64(len(nf)))
-		c.Count(fmt.Sprintf("new_states_depth_%d", d), int64(len(nf)))
+		c.State(nstates)
+		c.Count(fmt.Sprintf("new_states_depth_%d", d), nstates)
+		c.Count("diverged_states_not_expanded", ntainted)
 		frontier = nf
 	}
+	vr.report(c, a)
 	c.Note("depth_completed", completed)
 	c.Outcome("held")
 	// outcome classes: the feature combinations that occurred
-	rc.m.Range(func(k, v interface{}) bool {
-		ri := v.(*refInfo)
-		c.Outcome(fmt.Sprintf("shape:branches=%d,embedded=%v", ri.branches, ri.embedded))
-		return true
-	})
+	for i := range rc.tab {
+		if ri := rc.tab[i].Load(); ri != nil {
+			c.Outcome(fmt.Sprintf("shape:branches=%d,embedded=%v", ri.branches, ri.embedded))
+		}
+	}
 }
 
 func maskNames(m uint8) []string {
@@ -855,7 +956,7 @@ func replay(c *fw.Ctx, raw json.RawMessage) {
 		}
 		hist = append(hist, byte(found))
 	}
-	rc := &refCache{keys: a.keys}
+	rc := newRefCache(a.keys)
 	// every prefix is checked, like in the search
 	for n := 1; n <= len(hist); n++ {
 		r := execute(a, rc, hist[:n], true)
